@@ -452,6 +452,36 @@ def c10_extra(tier, seed, ctx):
             time.sleep(0.4 * (attempt + 1))
         violations += v
         queries += q
+    # a stop at once on a position the cache already knows from an earlier, deeper search of its parent (as an inner node whose
+    # stored move need not be legal): the single bestmove that answers the go must still be a legal move
+    warm = [("r3k2r/p1ppqpb1/bn2pnp1/3PN3/1p2P3/2N2Q1p/PPPBBPPP/R3K2R w KQkq - 0 1", "e1d1 a6e2"),
+            ("7r/2p3k1/1p1p1qp1/1P1Bp3/p1P2r1P/P7/4R3/Q4RK1 w - - 0 36", "h4h5 f4f1"),
+            ("rnbqkbnr/pppppppp/8/8/8/8/PPPPPPPP/RNBQKBNR w KQkq - 0 1", "e2e4 d7d5 f1b5")]
+    for fen, line in warm:
+        for burst in (["go infinite", "stop"], ["go nodes 1"], ["go movetime 0"]):
+            def warm_case(scale, fen=fen, line=line, burst=burst):
+                v = []
+                eng = Engine(ctx["engine"])
+                eng.send(f"position fen {fen}")
+                eng.send("go depth 4")
+                if eng.wait_for(lambda l: l.startswith("bestmove"), 20.0 * scale) is None:
+                    eng.kill()
+                    return [viol("C10", "go-or-stop-lost", f"warm-up go depth 4 on [{fen}] not answered")]
+                idx = len(eng.lines())
+                eng.send(f"position fen {fen} moves {line}")
+                eng.send_raw(("\n".join(burst) + "\n").encode())
+                i = eng.wait_for(lambda l: l.startswith("bestmove"), 3.0 * scale, idx)
+                if i is None:
+                    v.append(viol("C10", "go-or-stop-lost", f"fen=[{fen}] moves {line}: {burst} not answered"))
+                else:
+                    mv = (eng.lines()[i][1].split() + [""])[1]
+                    queries.append((fen, line, mv))
+                eng.send("quit")
+                eng.close()
+                return v
+            evals += 1
+            distinct.add((fen, line, " ".join(burst)))
+            violations += robust(warm_case)
     for l in legal_queries(ctx["driver"], queries):
         violations.append(viol("C10", "bestmove-not-legal", l))
     return {"violations": violations, "model_mismatches": model_mismatches, "evaluations": evals, "distinct_nontrivial": len(distinct), "samples": samples,
